@@ -223,13 +223,15 @@ func parseContractFile(path string, extra ...string) (*ContractFile, error) {
 	type macro struct {
 		params []string
 		body   string
+		raw    bool // expanded without surrounding parentheses (argument lists)
 	}
 	macros := map[string]macro{}
 	var kept []string
 	var keptNos []int
 	for i, l := range lines {
-		if strings.HasPrefix(l, "define ") {
-			rest := strings.TrimSpace(l[len("define "):])
+		if strings.HasPrefix(l, "define ") || strings.HasPrefix(l, "defineraw ") {
+			raw := strings.HasPrefix(l, "defineraw ")
+			rest := strings.TrimSpace(l[strings.Index(l, " ")+1:])
 			op := strings.Index(rest, "(")
 			cl := strings.Index(rest, ")")
 			if op < 0 || cl < op {
@@ -241,7 +243,7 @@ func parseContractFile(path string, extra ...string) (*ContractFile, error) {
 					ps = append(ps, q)
 				}
 			}
-			macros[strings.TrimSpace(rest[:op])] = macro{ps, strings.TrimSpace(rest[cl+1:])}
+			macros[strings.TrimSpace(rest[:op])] = macro{ps, strings.TrimSpace(rest[cl+1:]), raw}
 			continue
 		}
 		kept = append(kept, l)
@@ -276,7 +278,11 @@ func parseContractFile(path string, extra ...string) (*ContractFile, error) {
 							body = replaceWord(body, pn, "("+strings.TrimSpace(args[pi])+")")
 						}
 					}
-					text = text[:k] + "(" + body + ")" + text[j+1:]
+					if m.raw {
+						text = text[:k] + body + text[j+1:]
+					} else {
+						text = text[:k] + "(" + body + ")" + text[j+1:]
+					}
 					changed = true
 				}
 			}
@@ -1107,6 +1113,19 @@ func (fx *FnExec) evalCallC(x *ast.CallExpr, env *evalEnv) (cval, error) {
 			r = "(and (> " + m.S + " 0) (= (select " + dom + " " + m.S + ") ((as const (Array " + fx.sortOf(mt.Key()) + " Bool)) false)) (= (select " + l + " " + m.S + ") 0))"
 		})
 		return boolr(r)
+	case "implements": // implements(v, "TimestampAwareLoader"): the dynamic type of v has the interface's methods
+		v, err := fx.evalC(x.Args[0], env)
+		if err != nil {
+			return cval{}, err
+		}
+		name, _ := strconv.Unquote(x.Args[1].(*ast.BasicLit).Value)
+		t := fx.W.typeByName(name)
+		if t == nil {
+			return cval{}, fmt.Errorf("implements: unknown type %q", name)
+		}
+		fnm := "implements_" + sanitize(types.TypeString(t, func(p *types.Package) string { return p.Name() }))
+		fx.declareFun(fnm, []string{"Int"}, "Bool")
+		return boolr("(and (distinct (i.tag " + v.S + ") 0) (" + fnm + " (i.tag " + v.S + ")))")
 	case "typeIs": // typeIs(v, "int64")
 		v, err := fx.evalC(x.Args[0], env)
 		if err != nil {
